@@ -395,7 +395,10 @@ fn build(tier: Tier) -> Vec<Scenario> {
     // channel source fed by a concurrent task: every item once, in order, on a single replica
     for n in [0usize, 1, 4] {
         for p in [1u64, 2] {
-            out.push(channel_source_scenario(n, p, if tier == Tier::Quick { 1 } else { 2 }));
+            out.push(channel_source_scenario("C15", n, p, if tier == Tier::Quick { 1 } else { 2 }, false));
+            if n > 0 {
+                out.push(channel_source_scenario("C15", n, p, if tier == Tier::Quick { 1 } else { 2 }, true));
+            }
         }
     }
     if tier == Tier::Quick {
@@ -503,7 +506,7 @@ fn source_job_scenario(kind: SrcJob, layout: crate::kit::Layout, bound: usize) -
     }
 }
 
-fn channel_source_scenario(n: usize, p: u64, bound: usize) -> Scenario {
+pub fn channel_source_scenario(prefix: &str, n: usize, p: u64, bound: usize, pause_before_close: bool) -> Scenario {
     use crate::rt::{log, Ev, Status};
     use renoir::operator::source::ChannelSource;
     let body: crate::rt::Body = Arc::new(move || {
@@ -513,6 +516,10 @@ fn channel_source_scenario(n: usize, p: u64, bound: usize) -> Scenario {
         let feeder = renoir::verif::thread::spawn(move || {
             for i in 0..n as i64 {
                 tx.send(i * 7 % 5).unwrap();
+            }
+            if pause_before_close {
+                // the source is parked in its blocking receive when the channel is closed
+                renoir::verif::thread::sleep(std::time::Duration::from_millis(500));
             }
         });
         env.execute_blocking();
@@ -538,6 +545,23 @@ fn channel_source_scenario(n: usize, p: u64, bound: usize) -> Scenario {
         if replicas.len() > 1 {
             return Err(Fail::new("c15-channel-source-replicated", format!("items were emitted on replicas {:?}", replicas)));
         }
+        // behind the source: data*, exactly one end of iteration, one Terminate (C05's grammar for
+        // a job without loops)
+        let mut kinds: std::collections::BTreeMap<(u64, u64, u64), Vec<u8>> = Default::default();
+        for e in &r.log {
+            if let Ev::Probe(3, c, k, _, _) = e {
+                if *k != crate::kit::K_FB {
+                    kinds.entry(*c).or_default().push(*k);
+                }
+            }
+        }
+        for (c, ks) in &kinds {
+            let n = ks.len();
+            let fars = ks.iter().filter(|k| **k == crate::kit::K_FAR).count();
+            if !(n >= 2 && ks[n - 1] == crate::kit::K_TERM && ks[n - 2] == crate::kit::K_FAR && fars == 1) {
+                return Err(Fail::new("c05-channel-source-grammar", format!("replica {:?} of the channel source emitted kinds {:?} (0 item, 4 terminate, 5 end of iteration): expected items, one end of iteration, terminate", c, ks)));
+            }
+        }
         for e in &r.log {
             if let Ev::Note("seq", v) = e {
                 if *v != exp {
@@ -549,8 +573,8 @@ fn channel_source_scenario(n: usize, p: u64, bound: usize) -> Scenario {
         Err(Fail::new("c15-channel-source-no-result", "no result".to_string()))
     });
     Scenario {
-        name: format!("C15/channel-source/n{n}/p{p}"),
-        descr: format!("ChannelSource(capacity 2) fed with {n} items by a concurrent task, {p} cores, every schedule within the bound"),
+        name: format!("{prefix}/channel-source/n{n}/p{p}{}", if pause_before_close { "/late-close" } else { "" }),
+        descr: format!("ChannelSource(capacity 2) fed with {n} items by a concurrent task{}, {p} cores, every schedule within the bound", if pause_before_close { " that closes the channel 500 ms later" } else { "" }),
         params: crate::rt::EnvParams::default(),
         body,
         check,
